@@ -108,6 +108,27 @@ def missing_end_codes(rng):
             "total_mode": rng.choice(["given", "estimated"]), "noise_seed": rng.randrange(10 ** 6)}
 
 
+def repeated_clique(rng):
+    """One clique measured twice - precisely, then very noisily - on public data that already fit well: both count."""
+    cells = [(i, j) for i in range(3) for j in range(3)]
+    priv = [list(rng.choice(cells)) for _ in range(300)]
+    pub = [list(c) for c in cells] + [list(rng.choice(cells)) for _ in range(3)]
+    return {"attrs": ["a", "b"], "sizes": [3, 3], "public": pub, "private": priv,
+            "meas": [{"proj": ["a", "b"], "kind": "identity", "noise": 1.0}, {"proj": ["a", "b"], "kind": "identity", "noise": 15.0}],
+            "total_mode": "given", "noise_seed": rng.randrange(10 ** 6)}
+
+
+def underflow(rng):
+    """A hundred thousand private records all with a = 0, precise answers, most public records with a != 0: their weights
+    underflow to exactly 0.0 and must still be reported (one weight per public record)."""
+    priv = [[0, rng.randrange(3)] for _ in range(200)]
+    pub = [[rng.randrange(3), rng.randrange(3)] for _ in range(40)]
+    pub[0][0] = 0
+    return {"attrs": ["a", "b"], "sizes": [3, 3], "public": pub, "private": priv,
+            "meas": [{"proj": ["a", "b"], "kind": "identity", "noise": 1.0, "y": None}], "total_mode": "explicit", "total": 100000.0,
+            "noise_seed": rng.randrange(10 ** 6), "scale_private": 500.0}
+
+
 def shared_query(rng):
     """Two attributes of equal size measured with the SAME identity matrix object, with answers that differ a lot."""
     cells = [(i, j) for i in range(4) for j in range(4)]
@@ -160,8 +181,8 @@ def build(sc):
     for m in sc["meas"]:
         x = priv.project(list(m["proj"])).datavector()
         Q = E.qmat(m["kind"], x.size)
-        y = Q @ x + rs.normal(0, m["noise"], Q.shape[0])
-        if "y" in m:
+        y = Q @ (x * sc.get("scale_private", 1.0)) + rs.normal(0, m["noise"], Q.shape[0])
+        if m.get("y") is not None:
             y = np.array(m["y"], dtype=float)
         if sc["total_mode"] == "estimated_negative":
             y = y - (x.sum() + 3.0) / max(1, x.size) * np.abs(Q).sum(axis=1)      # noisy answers whose implied total is below zero
@@ -269,7 +290,7 @@ def run(ctx, canary=False):
         ctx.violation("design-level: %s violated in PublicMD.tla" % r.violated, {"tlc": r.trace_text()}, {"kind": "design"})
     traces = []
     stats = {"negative_rhs_steps": 0, "accepted_increase": 0, "runs": 0}
-    scs = [scenario(rng) for _ in range(900 if thorough else 110)] + [precise_vs_imprecise(rng) for _ in range(60 if thorough else 8)] + [big_prefix(rng) for _ in range(20 if thorough else 4)] + [degenerate(rng) for _ in range(30 if thorough else 6)] + [KNOWN_DEGENERATE] + [shared_query(rng) for _ in range(40 if thorough else 8)] + [missing_end_codes(rng) for _ in range(60 if thorough else 12)] + [sharp(rng) for _ in range(60 if thorough else 6)] + [sharp3(rng) for _ in range(400 if thorough else 120)]
+    scs = [scenario(rng) for _ in range(900 if thorough else 110)] + [precise_vs_imprecise(rng) for _ in range(60 if thorough else 8)] + [big_prefix(rng) for _ in range(20 if thorough else 4)] + [degenerate(rng) for _ in range(30 if thorough else 6)] + [KNOWN_DEGENERATE] + [shared_query(rng) for _ in range(40 if thorough else 8)] + [missing_end_codes(rng) for _ in range(60 if thorough else 12)] + [repeated_clique(rng) for _ in range(30 if thorough else 6)] + [underflow(rng) for _ in range(10 if thorough else 3)] + [sharp(rng) for _ in range(60 if thorough else 6)] + [sharp3(rng) for _ in range(400 if thorough else 120)]
     import multiprocessing
     with multiprocessing.get_context("fork").Pool(16) as pool:
         outs = pool.map(one_run, scs, chunksize=2)
